@@ -43,6 +43,45 @@ SPECS = {
                      "external commits, identity changes, reloads) over drawn configurations; one evaluation = one member's "
                      "state compared with the reference member after an accepted commit; distinct = distinct "
                      "(encoded GroupContext, role) pairs judged; trivial = none (every evaluation follows an accepted commit)"),
+    "C03": dict(shards=(12, 48), level="exploration",
+                floors={"quick": {"trial:commit:bitflip": 2000, "trial:application:bitflip": 1000,
+                                  "trial:proposal:bitflip": 1000, "trial:welcome:bitflip": 500,
+                                  "insider_built:path_too_short_consistent_hashes": 10,
+                                  "insider_built:stale_confirmation_tag": 10,
+                                  "ground_truth_checked:commit": 20}},
+                show=("commit_accepted", "histories", "sweep:", "insider_built:"),
+                rule="messages harvested from seeded random histories (public and private commits with/without path, proposals of every "
+                     "type, application messages, Welcome, GroupInfo, out-of-band tree, key packages) are mutated (every single-bit flip and "
+                     "truncation point for swept messages, field splices between two valid messages, epoch/group/sender rewrites, insider "
+                     "re-encrypted sender data, replays into later epochs, authentic-but-invalid commits built through the insider hook) and "
+                     "delivered to a clone of each receiver; one evaluation = one delivery judged; distinct = distinct "
+                     "(message kind, mutation class, outcome/error kind) cells; trivial deliveries (mutations that decode to the same "
+                     "message) are skipped and not counted"),
+    "C04": dict(shards=(12, 48), level="exploration",
+                floors={"quick": {"unchanged_checked": 3000, "follow_up_genuine_ok": 1500, "follow_up_peer_accepts": 800}},
+                show=("commit_accepted", "histories", "unchanged_checked", "follow_up", "honest_failure", "failed_build"),
+                rule="every rejection produced by the tamper engine's mutations plus honest-failure scripts (missing external PSK, trimmed "
+                     "resumption epoch with/without path and with an own identity update pending, identity provider rejecting an added member, "
+                     "each storage call failing during a plain and a re-init commit, failing commit/proposal builders); one evaluation = one "
+                     "rejected call followed by state comparison (PartialEq on every part of the member state; secret trees up to "
+                     "observational equivalence of every (leaf, key type, generation<=6) key) and the follow-up oracle (genuine message "
+                     "accepted, then the member sends and a peer accepts); distinct = distinct (kind, class, error kind) cells"),
+    "C12": dict(shards=(8, 32), level="exploration",
+                floors={"quick": {"nontrivial": 100000, "targeted_nonminimal": 5000, "arbitrary_decodes": 20000}},
+                show=("histories", "nontrivial", "trivial", "targeted_", "arbitrary_"),
+                rule="harvested library-produced blobs of 30 kinds (value round trip, exact consumption, exact encoded_len), hostile byte strings "
+                     "(random, mutated-valid, truncated, oversized / non-minimal length prefixes, out-of-range discriminants) through "
+                     "codec_probe under catch_unwind, a counting global allocator and a wall-clock bound, and arbitrary-generated values "
+                     "(encoded_len == bytes written; what decodes re-encodes to the consumed prefix); distinct = (kind, class, outcome) "
+                     "cells; non-trivial = decode succeeded or the input was a mutated-valid / targeted one"),
+    "C20": dict(shards=(4, 4), level="exploration", exhaustive=True,
+                floors={"quick": {"sizes_exhaustive": 13, "sizes_sampled": 12, "outside_nodes": 26}},
+                show=("sizes_", "inside_nodes", "outside_nodes", "lca_pairs"),
+                rule="every power-of-two leaf count 2^0..2^12 and every node index in [0, 2n] (in the tree and the first indices outside) "
+                     "is compared with a reference that halves intervals (root, left, right, parent, sibling, direct path, copath, subtree "
+                     "leaf range, BFS order, is_in_tree); LCA level for all leaf pairs up to 2^9 (thorough 2^11) and sampled pairs above; "
+                     "sizes 2^13..2^24 sampled around every level boundary; LeafIndex bound; distinct = distinct (n, x) pairs; exhaustive "
+                     "for the sizes named in the property"),
 }
 
 TIMEOUT = {"quick": 900, "thorough": 3 * 3600}
